@@ -8,22 +8,68 @@
    small statement grammar below (so keys and member names inside bodies are checked too).
    Definitions only. The oracle of the check is [c01_problems]: empty list = file accepted. *)
 From Coq Require Import String Ascii.
-From Coq Require Import List Arith Bool.
+From Coq Require Import List Arith Bool NArith.
 Require Import TT.Model.Str TT.Spec.TsLex TT.Spec.TsModule TT.Spec.TsObs.
 Import ListNotations.
 Local Open Scope list_scope.
 
 (* ---------------- identifiers ---------------- *)
+(* The shared lexer (Spec/TsLex.v) takes every byte >= 128 as an identifier character. ECMAScript allows only
+   ID_Start / ID_Continue code points. Explicit table for the scripts the generators use; EVERY OTHER non-ASCII
+   code point (in particular category No: superscripts, subscripts, fractions, circled numbers; punctuation;
+   symbols; emoji) and every malformed UTF-8 sequence is rejected.
+   ID_Start:  U+00AA U+00B5 U+00BA U+00C0-00D6 U+00D8-00F6 U+00F8-02C1 (Latin-1, Latin Extended, IPA, modifiers)
+              U+0370-0374 U+0376-0377 U+037B-037D U+037F U+0386 U+0388-038A U+038C U+038E-03A1 U+03A3-03F5 U+03F7-0481 (Greek, Cyrillic)
+              U+048A-052F (Cyrillic) U+0620-064A (Arabic letters) U+0904-0939 (Devanagari letters)
+              U+2160-2188 (Nl: Roman numerals) U+3041-3096 (Hiragana) U+30A1-30FA (Katakana) U+4E00-9FFF (CJK) U+AC00-D7A3 (Hangul)
+   ID_Continue adds: U+00B7, U+0300-036F (combining marks), U+0660-0669, U+0966-096F, U+FF10-FF19 (Nd digits of other scripts) *)
+Definition bN (c : ascii) : N := N_of_ascii c.
+Definition in_ranges (cp : N) (l : list (N * N)) : bool := existsb (fun r => (fst r <=? cp)%N && (cp <=? snd r)%N) l.
+Definition id_start_ranges : list (N * N) :=
+  [(170, 170); (181, 181); (186, 186); (192, 214); (216, 246); (248, 705);
+   (880, 884); (886, 887); (891, 893); (895, 895); (902, 902); (904, 906); (908, 908); (910, 929); (931, 1013); (1015, 1153);
+   (1162, 1327); (1568, 1610); (2308, 2361); (8544, 8584); (12353, 12438); (12449, 12538); (19968, 40959); (44032, 55203)]%N.
+Definition id_continue_extra : list (N * N) := [(183, 183); (768, 879); (1632, 1641); (2406, 2415); (65296, 65305)]%N.
+Definition id_start_cp (cp : N) : bool := in_ranges cp id_start_ranges.
+Definition id_continue_cp (cp : N) : bool := in_ranges cp id_start_ranges || in_ranges cp id_continue_extra.
+Definition is_cont (c : ascii) : bool := ((128 <=? bN c) && (bN c <=? 191))%N.
+(* walk a UTF-8 byte string: ASCII bytes are left to the caller's ASCII test; every non-ASCII code point must
+   satisfy pstart (first position) / pcont (elsewhere) *)
+Fixpoint uni_walk (pstart pcont : N -> bool) (first : bool) (s : str) : bool :=
+  match s with
+  | [] => true
+  | a :: r =>
+      let x := bN a in
+      let ok := fun cp => if first then pstart cp else pcont cp in
+      if (x <? 128)%N then uni_walk pstart pcont false r
+      else if (x <? 194)%N then false
+      else if (x <? 224)%N then
+        match r with
+        | b :: r' => is_cont b && ok ((x - 192) * 64 + (bN b - 128))%N && uni_walk pstart pcont false r'
+        | _ => false end
+      else if (x <? 240)%N then
+        match r with
+        | b :: c :: r' => is_cont b && is_cont c && ok ((x - 224) * 4096 + (bN b - 128) * 64 + (bN c - 128))%N && uni_walk pstart pcont false r'
+        | _ => false end
+      else
+        match r with
+        | b :: c :: d :: r' => is_cont b && is_cont c && is_cont d &&
+                               ok ((x - 240) * 262144 + (bN b - 128) * 4096 + (bN c - 128) * 64 + (bN d - 128))%N && uni_walk pstart pcont false r'
+        | _ => false end
+  end.
+Definition uni_ok (s : str) : bool := uni_walk id_start_cp id_continue_cp true s.
+(* an ECMAScript IdentifierName *)
+Definition is_ident_name (s : str) : bool := is_ts_identifier s && uni_ok s.
 Definition is_binding_name (s : str) : bool :=
-  is_ts_identifier s && negb (is_reserved s) && negb (str_eqb s (L "eval")) && negb (str_eqb s (L "arguments")).
+  is_ident_name s && negb (is_reserved s) && negb (str_eqb s (L "eval")) && negb (str_eqb s (L "arguments")).
 (* reserved words that are nevertheless legal as the single name of a type reference / a primary expression *)
 Definition type_keyword (s : str) : bool :=
   existsb (fun w => str_eqb s (L w)) ["void"; "null"; "this"; "true"; "false"]%string.
-Definition is_ref_head (s : str) : bool := is_ts_identifier s && (negb (is_reserved s) || type_keyword s).
+Definition is_ref_head (s : str) : bool := is_ident_name s && (negb (is_reserved s) || type_keyword s).
 Definition path_ok (p : list str) : bool :=
   match p with
   | [] => false
-  | h :: r => is_ref_head h && forallb is_ts_identifier r
+  | h :: r => is_ref_head h && forallb is_ident_name r
   end.
 
 (* ---------------- literals ---------------- *)
@@ -81,7 +127,7 @@ Definition tok_ok (t : tk) : bool :=
 
 (* ---------------- types ---------------- *)
 Definition key_ok (k : key) : bool :=
-  match k with KeyId s => is_ts_identifier s | KeyStr _ => true | KeyNum s => num_ok s end.
+  match k with KeyId s => is_ident_name s | KeyStr _ => true | KeyNum s => num_ok s end.
 
 Fixpoint ty_ok (t : ty) : bool :=
   match t with
@@ -102,7 +148,7 @@ Fixpoint ex_ok (e : ex) : bool :=
   | EStr _ _ | ENum _ | ETpl _ => true
   | EArr l => forallb ex_ok l
   | EObj ps => forallb (fun p => (match fst p with Some k => key_ok k | None => true end) && ex_ok (snd p)) ps
-  | EMember e n _ => ex_ok e && is_ts_identifier n
+  | EMember e n _ => ex_ok e && is_ident_name n
   | ECall f targs args => ex_ok f && forallb ty_ok targs && forallb ex_ok args
   | EIndex e i => ex_ok e && ex_ok i
   | EArrow ps b => forallb is_binding_name ps && ex_ok b
